@@ -30,6 +30,14 @@ def build(case):
         def raise_http():
             raise BadRequest('bad %d' % i)
 
+        def raise_http_odd():
+            # an error carrying a value the JSON encoder cannot serialise natively
+            raise BadRequest('odd %d' % i, error_type=ValueError)
+
+        def ok_base():
+            from werkzeug.wrappers import BaseResponse
+            return BaseResponse('base%d' % i)
+
         def return_http():
             return InternalServerError('ise %d' % i)
 
@@ -47,7 +55,7 @@ def build(case):
                 start_response('200 OK', [('Content-Type', 'text/plain')])
                 return [b'rerouted%d' % i]
             raise RerouteWSGI(wsgi)
-        return {'ok': ok, 'raise': raise_, 'raise_http': raise_http, 'return_http': return_http,
+        return {'ok': ok, 'ok_base': ok_base, 'raise_http_odd': raise_http_odd, 'raise': raise_, 'raise_http': raise_http, 'return_http': return_http,
                 'nonbreaking_raise': nb_raise, 'nonbreaking_return': nb_return, 'nonresponse': nonresponse,
                 'reroute': reroute}[beh]
 
@@ -115,6 +123,15 @@ def run(case):
                 problems.append('exception escaped to the WSGI server: %s' % got['escaped'])
         elif 'status' not in got:
             problems.append('start_response never called')
+        else:
+            # a single route, reached: the response has the status its behaviour asks for
+            rs = case['routes']
+            if len(rs) == 1 and case['request']['path'] == rs[0]['pattern'] and not rs[0].get('methods') \
+                    and case.get('handler', 'default') in ('default', 'debug'):
+                want = {'ok': '200', 'ok_base': '200', 'raise_http': '400', 'raise_http_odd': '400', 'return_http': '500',
+                        'raise': '500', 'nonresponse': '500'}.get(rs[0].get('behavior', 'ok'))
+                if want and not got['status'].startswith(want):
+                    problems.append('behaviour %s answered %s, expected %s' % (rs[0].get('behavior', 'ok'), got['status'], want))
         # a (failed) request leaves the application able to serve the next one unchanged
         for probe, fresh in zip(probes, reference):
             after = send(app, probe)
@@ -177,6 +194,10 @@ def c06_oracle(case, app, got):
         beh = r.get('behavior', 'ok')
         if beh == 'ok':
             expect = ('status', 200, 'route%d' % i)
+        elif beh == 'ok_base':
+            expect = ('status', 200, 'base%d' % i)
+        elif beh == 'raise_http_odd':
+            expect = ('status', 400, None)
         elif beh == 'raise':
             expect = ('escaped',) if case.get('handler') == 'reraise' else ('status', 500, None)
         elif beh == 'raise_http':
